@@ -397,6 +397,7 @@ pub fn cargotoml_main(args: &[String]) {
         ("serde_overlap", true, false, false, vec!["serde_json", "serde", "chrono"]),
         ("axum_tokio_overlap", false, false, true, vec!["tokio", "tracing"]),
         ("tokio_only", false, true, false, vec!["reqwest", "regex"]),
+        ("web_and_json", true, false, true, vec!["uuid"]),
         ("unknown_crate", false, false, false, vec!["rand", "left_pad"]),
         ("all_known", false, false, false, vec![
             "serde", "serde_json", "tokio", "time", "chrono", "reqwest", "uuid", "rand", "regex", "anyhow", "thiserror", "tracing", "clap", "log",
